@@ -879,7 +879,7 @@ func (r TypeInfo) IsOption() bool {
 }
 
 func (r TypeInfo) IsNilable() bool {
-	switch atp := r.Type.(type) {
+	switch atp := types.Unalias(r.Type).(type) {
 	case *types.Pointer:
 		return true
 	case *types.Slice:
